@@ -136,6 +136,36 @@ Theorem C09_correspondence_meaning :
   forall kc ds ogs oes calls o, check_case (kc, ds, ObsOk ogs oes calls) = true -> In o calls -> order_ok kc ds o.
 Proof. exact check_case_observed. Qed.
 
+Theorem C09_correspondence_meaning_order_only :
+  forall kc ds calls o, check_case (kc, ds, ObsOrder calls) = true -> In o calls -> order_ok kc ds o.
+Proof. exact check_case_observed_order. Qed.
+
+(* ... and the implementation's resource graph forces the same initializer groups to precede the same initializer
+   groups as the model's graph (the comparison function `same_constraints` decides exactly that) *)
+Theorem C09_correspondence_constraints :
+  forall kc ds ogs oes calls, check_case (kc, ds, ObsOk ogs oes calls) = true ->
+  exists gs, build kc ds = Ok gs /\
+    forall a b, In a (filter is_init (nodes_of gs)) -> In b (filter is_init (nodes_of gs)) ->
+                (path (edges_of gs) a b <-> path oes a b).
+Proof. exact check_case_constraints. Qed.
+
+Theorem C09_reachability_exact :
+  forall es u v, In v (descendants es u) <-> path es u v.
+Proof. exact descendants_spec. Qed.
+
+(* ---------------------------------------------------------------------------------------------------------------- *)
+(* refusal does not depend on how nodes are named (null-group counters and modifier indices depend on the supply  *)
+(* order): under ANY injective renaming of the nodes the sort refuses the renamed graph iff it refuses the original *)
+(* ---------------------------------------------------------------------------------------------------------------- *)
+Theorem C09_refusal_invariant_under_renaming :
+  forall (node node' : Type) (f : node -> node'), (forall a b, f a = f b -> a = b) ->
+  forall (eqb : node -> node -> bool) (eqb' : node' -> node' -> bool),
+    (forall a b, eqb a b = true <-> a = b) -> (forall a b, eqb' a b = true <-> a = b) ->
+  forall nodes edges, (forall u v, In (u, v) edges -> In u nodes /\ In v nodes) -> NoDup nodes ->
+    ((exists e, kahn eqb nodes edges = Rejected e) <->
+     (exists e, kahn eqb' (map f nodes) (map (fun e => (f (fst e), f (snd e))) edges) = Rejected e)).
+Proof. exact @kahn_refusal_invariant_under_renaming. Qed.
+
 (* ---------------------------------------------------------------------------------------------------------------- *)
 (* non-vacuity                                                                                                      *)
 (* ---------------------------------------------------------------------------------------------------------------- *)
@@ -182,6 +212,13 @@ Proof. vm_compute. reflexivity. Qed.
 Example ex_duplicate_refused : init_order [] (ambient ++ [DInit 1 [10] [] [] []; DInit 2 [10] [] [] []]) = Rejected EPopulation.
 Proof. vm_compute. reflexivity. Qed.
 
+(* the reachability function on the example graph: column 14's group reaches initializer 3's group (12), not conversely *)
+Example ex_descendants :
+  match build [14] (ambient ++ compA ++ compB ++ compC ++ compD) with
+  | Ok gs => (rmem (RCol 12) (descendants (edges_of gs) (RCol 14)), rmem (RCol 14) (descendants (edges_of gs) (RCol 12)))
+  | _ => (false, false) end = (true, false).
+Proof. vm_compute. reflexivity. Qed.
+
 Print Assumptions C09_kahn_sound.
 Print Assumptions C09_kahn_refuses_cycles.
 Print Assumptions C09_kahn_complete.
@@ -198,3 +235,7 @@ Print Assumptions C09_unmet_only_warn.
 Print Assumptions C09_edges_characterised.
 Print Assumptions C09_checker_sound.
 Print Assumptions C09_correspondence_meaning.
+Print Assumptions C09_correspondence_meaning_order_only.
+Print Assumptions C09_correspondence_constraints.
+Print Assumptions C09_reachability_exact.
+Print Assumptions C09_refusal_invariant_under_renaming.
